@@ -111,3 +111,44 @@ def visible(repo):
         raise AnalysisError(f"{f.name}: no scope is built from an import")
     res.analysed = [m.rel]
     return res
+
+
+def scopevis(repo, schema=None, sites=None):
+    """R-SCOPEVIS (C12): visibility classes of the symbol table, as documented on `_Scope`: SEARCHABLE names are found from
+    any scope on the search list (type names, module and import names); names that belong to a structure or enum — fields,
+    runtime parameters, enum values — are LOCAL (or PRIVATE for abbreviations and the `$` builtin) so that they are not
+    found from nested types.  Every scope-registration action is classified by the IR node kind its traversal is
+    registered for; an action for Field, RuntimeParameter or EnumValue must never register SEARCHABLE, an action for
+    TypeDefinition must."""
+    from ..irschema import Schema
+    from . import traversal as T
+    res = RuleResult("R-SCOPEVIS")
+    schema = schema or Schema(repo)
+    sites = sites if sites is not None else T.collect_sites(repo, schema)
+    m = repo.mod("compiler/front_end/symbol_resolver.py")
+    kind_of = {}
+    for s_ in sites:
+        if s_.module.rel != m.rel or s_.action is None or not s_.pattern:
+            continue
+        kind_of.setdefault(s_.action.name, set()).add(s_.pattern[-1])
+    inner = {"Field", "RuntimeParameter", "EnumValue"}
+    for f in m.top_funcs():
+        kinds = kind_of.get(f.name)
+        if not kinds:
+            continue
+        vis = [n for n in walk_no_nested_funcs(f.node) if isinstance(n, ast.Attribute) and isinstance(n.value, ast.Name)
+               and n.value.id == "_Scope" and n.attr in ("LOCAL", "PRIVATE", "SEARCHABLE")]
+        for v in vis:
+            res.instances += 1
+            if kinds & inner and v.attr == "SEARCHABLE":
+                res.add(f"{m.rel}|{f.name}|{v.attr}", f"{f.name} (registered for {sorted(kinds)} nodes) makes a name SEARCHABLE: a field, parameter or "
+                        "enum value name then resolves from every nested type (false \"Ambiguous name\" for a nested field of the same "
+                        "name, and a nested use of the outer name is no longer rejected)", m.rel, v.lineno, f.name)
+            if kinds == {"TypeDefinition"} and v.attr != "SEARCHABLE":
+                res.add(f"{m.rel}|{f.name}|{v.attr}", f"{f.name} registers a type name as {v.attr}: types are referenced from other scopes and must "
+                        "be SEARCHABLE", m.rel, v.lineno, f.name)
+    if res.instances < 4:
+        raise AnalysisError(f"symbol_resolver: only {res.instances} visibility constants in registration actions")
+    res.samples = [f"{sorted((k, sorted(v)) for k, v in kind_of.items() if 'scope' in k)[:6]}"]
+    res.analysed = [m.rel]
+    return res
